@@ -203,6 +203,8 @@ def run(ctx):
                                                                    150 if ctx.quick else 600))
     nin_ = _gcm.inert_arguments(ctx, rng, 3 if ctx.quick else 6)
     ctx.counted('arguments that cannot change the answer (inert exclude=, root spelling, NOUNIQUE)', nin_, nin_ // 2, [{'pattern': '**', 'exclude': 'zz-no-such-name*'}])
+    ntn_ = _gcm.trailing_newline_names(ctx)
+    ctx.counted('names ending in a line feed: walk (str, bytes, dir_fd, descriptor 0, pathlib) vs REALPATH matcher', ntn_, ntn_ // 2, [{'pattern': '[b]', 'entry': 'b\\n'}])
     nug_ = _gcm.unclosed_group_paths(ctx)
     ctx.counted('unclosed groups in path patterns: walker vs matcher', nug_, nug_ // 2, [{'pattern': '@(a/[b'}])
     nsp_ = _gcm.spelling_equiv(ctx, rng, 2 if ctx.quick else 8, 20 if ctx.quick else 80)
